@@ -467,6 +467,16 @@ example :
     (runSched true 0 [] 2 9 init {} [] evs).2.recv = [[0x61], [0x62], [0x63], [0x64]] ∧
     (runSched true 0 [] 2 9 init {} [] evs).2.forced = 0 := by decide
 
+/-- **The stream of a sequence does not depend on its batch-mates.**  `runSkips` is `run` with
+    `skips[i]` extra calls of processBatch before the i-th sampling step in which the sequence is in
+    `s.seqs` but not sampled (its input did not fit into the batch next to the other sequences); only
+    the prediction-limit check at the top of the call is made.  For every such schedule the final
+    state (chunks, reason, pending, count) is the one of `run`. -/
+theorem batch_mates_independent (pinned : Bool) (limit : Int) (stops : List Bytes) (evs : List Ev)
+    (skips : List Nat) :
+    runSkips pinned limit stops init skips evs = run pinned limit stops init evs :=
+  runSkips_eq_run pinned limit stops evs init skips rfl
+
 /-! ### 5c. the property as stated, for the tree as it is now (repaired `FindStop`, `pinned = false`) -/
 
 /-- **C14 for the current tree, all clauses in one statement.**  For every script of pieces/EOS, every
